@@ -9,6 +9,8 @@
             the point was produced by an on-curve constructor (solving the curve equation).  Helpers
             returning Result<Affine> are summarised per world; `Valid::check for Affine` is analysed
             the same way (Ok only when both tests hold).
+  R-TAIL    (rules/c14.py) batched validation never splits its input with exact-size chunking that
+            drops the remainder.
   R-FIELD   Fp::deserialize_with_flags: Ok only via from_bigint (range check) and the
             flag-extraction error arm.
 """
@@ -386,6 +388,9 @@ def run(ctx, res):
     serflow.check_flow(rc, rv, facts, UNITS)
     check_points(res, facts)
     check_field(res, facts)
+    # batched validation (Valid::batch_check, parallel arm included) must visit every element
+    from rules import c14
+    c14.check_tail(res, ctx.facts(["ws", "par", "shapes"]))
     return {
         "level": "other",
         "explanation": "Path-exhaustive typestate analysis over the MIR of every point deserializer (generic defaults in ark-ec, every override in curves/* and test-curves): paths enumerated under compress x validate=Yes x {on-curve?, in-subgroup?}; plus mode-flag propagation over all deserialize_with_mode bodies and the field-element reader. Decides that validation cannot be bypassed on any path; does NOT decide that is_on_curve / the subgroup tests compute the right answer (C03/C12) nor absence of panics inside arithmetic.",
